@@ -641,6 +641,7 @@ func init() {
 					c.Add(Case{Line: line, Impl: impl, Key: key})
 				}
 			}
+			evalFailedImportOracle(c, "C10")
 			// fixed witnesses first: the two open findings (reported every run while they
 			// reproduce) and the repaired defect (must stay silent)
 			for _, w := range []struct {
@@ -685,6 +686,11 @@ func init() {
 				{[]string{"a := -0.0", "b := 0.0", "string(b)"}, []string{"string(a)", "string(b)", "string(0.0)", "string(-0.0)"}, evalCfg{}},
 				{[]string{"a := 0.0", "b := -0.0", "string(b)", "c := 0.0 * -1", "d := 0.0"}, []string{"string(a)", "string(b)", "string(c)", "string(d)"}, evalCfg{}},
 				{[]string{"x := 1 - 1.0", "y := -x", "z := -0.0", "w := 0.0", "string(w)"}, []string{"string(y)", "string(z)", "string(w)"}, evalCfg{}},
+				{[]string{"const ( bool = iota; char; len )", "x := 1", "char(65)"}, []string{"char", "len", "typeName(bool)"}, evalCfg{}},
+				{[]string{"const len = 7", "y := len + 1", "z := len(\"abc\")"}, []string{"y", "len"}, evalCfg{}},
+				{[]string{"const string = \"s\"", "t := [string(3), string]"}, []string{"string"}, evalCfg{}},
+				{[]string{"\"start\"", "param (a, b)", "a + b"}, []string{"a", "b"}, evalCfg{args: []ugo.Object{ugo.Int(10), ugo.Int(20)}}},
+				{[]string{"1 + 1", "2", "param (a, b)", "[a, b]"}, []string{"a", "b"}, evalCfg{args: []ugo.Object{ugo.Int(10), ugo.Int(20), ugo.Int(30)}}},
 				{[]string{"global counter", "counter = 41", "counter + 1", "counter += 1", "counter"}, []string{"counter"}, evalCfg{nilGlob: true}},
 				{[]string{"global (g1, g2)", "g1 = [1]", "g2 = g1", "g1[0] = 7", "g2"}, []string{"g1", "g2"}, evalCfg{nilGlob: true}},
 			} {
